@@ -26,10 +26,44 @@ func init() {
 	p("C03", []RuleSel{
 		{"SM", []string{"SM-panic", "SM-deref", "RX-groups", "SM-progress"}},
 		{"FL", []string{"FL-fill-guard", "FL-suffix-once"}},
-		{"BN", []string{"PN-*", "BN-*", "LP-*", "LX-enum"}},
+		{"BN", []string{"PN-*", "BN-*", "LP-*"}},
+		{"LX", []string{"LX-enum", "LX-len"}},
 	}, map[string]int{"SM-panic": 19, "SM-deref": 19, "PN-panic": 4, "LP-loop": 10, "BN-neg": 40},
 		"No reachable explicit panic, no out-of-range index or nil dereference in the scanner for any line sequence (typestate facts over the extracted automaton: SM-panic, SM-deref, RX-groups), every explicit panic site classified (PN), every index/slice operand built from arithmetic or a search result proved non-negative by an interval analysis with dominating guards (BN-neg) plus the listed upper-bound idioms (BN-idiom/array), every loop counted or matched against its structural termination argument (LP), progress of the scan and CLI loops (SM-progress, FL-suffix-once). Not decided: reader cursor upper bounds (relational), general upper bounds, linear time.",
 		"stdlib functions in the read-only table do not panic on any input (regexp, strconv, bytes, strings, net/url, go/parser, html/template)")
+	p("C04", []RuleSel{
+		{"AG", []string{"AG-*"}},
+		{"SM", []string{"SM-first"}},
+	}, map[string]int{"AG-once": 3, "AG-rekey": 2, "AG-merge": 1, "AG-first": 1, "AG-sorted": 1, "AG-collect": 1, "AG-back": 1, "AG-level": 1, "AG-fresh-key": 1},
+		"Every clause of the partition statement is decided over all SSA paths of one iteration of Aggregate's find-or-create loop (lookup loop unrolled), of the collect loop and of the code after it: per goroutine exactly one insertion of its id (append to the matched bucket, lookup ends at the match, or one new bucket with a copy of its signature); on a match with an unequal key the bucket is re-inserted under merge(key, member) and the old key deleted, merge returning a new object; ids pass through sort.Ints after the last append; First is OR-accumulated from the members and published unchanged; every map entry becomes exactly one Bucket; the result refers back to the receiver. Disjointness and exhaustiveness of the id lists follow by induction over the goroutines from exactly-one-insertion and reachable-under-one-key; the argument assumes that similar is an equivalence relation at the chosen level (C05, EQ rules).",
+		"the Go map implements insertion/deletion during iteration as specified (an entry inserted during the range may or may not be visited; the lookup ends at the first match, so it is not)")
+	p("C05", []RuleSel{
+		{"EQ", []string{"EQ-key", "EQ-lift", "EQ-sig-scalars", "EQ-noread", "EQ-merge-class", "EF-fresh-merge"}},
+		{"AG", []string{"AG-level", "AG-once", "AG-merge", "AG-rekey", "AG-fresh-key"}},
+	}, map[string]int{"EQ-key": 9, "EQ-lift": 6, "EQ-sig-scalars": 5, "EQ-noread": 1, "EQ-merge-class": 1, "AG-level": 1},
+		"similar/equal read their operands only through field loads and comparisons, so each is a decision tree over a few atoms; the tree extracted from SSA (one per level) is compared with the reference key of the property statement for every truth assignment of the atoms (exhaustive: EQ-key for arguments, EQ-lift for the pointwise liftings Args/Stack and the Call conjunction, EQ-sig-scalars for Signature incl. the ExactFlags-only lock test); the reference keys are checked to be equivalence relations that refine each other on the complete 3-value model of an argument; no function reachable from Signature.similar reads the sleep fields (EQ-noread); a merged key keeps the left side's class (EQ-merge-class) and the lookup uses the caller's level (AG-level). Bucket = class then follows by induction over arrivals (unique similar key, merge keeps the class).",
+		"equality logic small-model property: functions that only compare fields are determined by the pattern of (in)equalities")
+	p("C12", []RuleSel{
+		{"EQ", []string{"EQ-merge-show", "EQ-sig-scalars", "EQ-merge-class", "EF-fresh-merge"}},
+		{"AG", []string{"AG-merge", "AG-collect"}},
+	}, map[string]int{"EQ-merge-show": 8, "EQ-sig-scalars": 5, "AG-merge": 1},
+		"What a merged signature is made of is decided on every SSA path of the four merge functions: an argument equal on both sides is copied unchanged, one that differs becomes '*' (with the left side's value/pointer-ness kept, nothing from the right side), aggregates are merged field by field at the same position, every other field of a frame is the left frame's (equal by similarity), frame i merges frame i of both sides, sleep bounds are min/max, Locked is the OR, state and creator are the left side's; a similar-but-not-equal member always goes through merge (AG-merge) and the published bucket signature is the map key (AG-collect).",
+		"")
+	p("C13", []RuleSel{
+		{"LX", []string{"LX-swo", "LX-order", "LX-enum", "LX-len"}},
+		{"EQ", []string{"EQ-merge-show"}},
+		{"AG", []string{"AG-first", "AG-collect"}},
+	}, map[string]int{"LX-swo": 4, "LX-order": 3, "LX-enum": 4},
+		"The comparators behind the bucket order (Stack.less, Signature.less, the Aggregate comparator, uint64Slice.Less) are recognised, on the type-checked syntax tree, as lexicographic chains of strict comparisons in which every step is the mirror image of its partner under one consistent bijective renaming that swaps the two operands (including the key computations of Stack.less); a lexicographic product of strict weak orders is a strict weak order, so irreflexivity, asymmetry, transitivity and transitivity of incomparability hold for every set of buckets. LX-order: the first key of the bucket order is 'contains the first goroutine', the first key of Stack.less is the package-main frame count, followed by the per-location counts in ascending constant order with GoMod, GOPATH, GoPkg before Stdlib (more first). LX-enum: every Location stored is a named constant below lastLocation; EQ-merge-show: merged frames keep the left frame's Location and package-main flag, so a merged bucket is ordered by what its members have.",
+		"the First idiom 'if l.First || r.First {return l.First}' is a strict order because exactly one bucket is First (AG-first, SM-first)")
+	p("C06", []RuleSel{
+		{"MO", []string{"MO-range", "MO-source"}},
+		{"LX", []string{"LX-total", "LX-swo"}},
+		{"FL", []string{"FL-reader-fresh"}},
+		{"EF", []string{"EF-globals"}},
+	}, map[string]int{"MO-range": 6, "MO-source": 1, "LX-total": 1, "FL-reader-fresh": 1},
+		"Every place where Go's randomised map order could reach an output is a range over a map: all of them (in stack, webstack, internal) are enumerated from the type-checked syntax trees and each is classified as any-match (result independent of order), collect-then-totally-sort (the collected slice is sorted by a total order before its first other use; for the buckets: by a comparator that ends in a unique key, LX-total), or the bucket lookup whose first match is unique because similarity is an equivalence (re-using the EQ/AG verdicts of this run); anything else is a violation. Also: no math/rand, clock (other than the exempt HTML timestamp), select, goroutine or pointer formatting in the library (MO-source); the line reader is a fresh local per call and no package-level variable is written after init (FL-reader-fresh, EF-globals), so nothing survives from an earlier call.",
+		"sort.Strings/Ints/Sort produce a unique result for a total order; text/template visits map keys in sorted order; os/file-system contents are part of the input")
 	p("C07", []RuleSel{
 		{"SM", []string{"SM-ref", "SM-progress", "SM-looking-clean", "SM-done-remainder"}},
 		{"FL", []string{"FL-remainder", "FL-suffix-once", "FL-line-once", "FL-reader-fresh"}},
